@@ -161,14 +161,14 @@ def _cut_bin_empty(M, N, E):
     return False
 
 
-def _rounding_case(M, E):
+def _rounding_case(M, E, need_exact=True):
     """The listed finding: with the loop as written (heaviest first, whole bins
     while M_j < budget) the float budget runs off the array although in exact
     arithmetic E <= sum(M)."""
     from fractions import Fraction
     M = [C.unjson_float(x) for x in M]
     E = C.unjson_float(E)
-    if not (sum(Fraction(m) for m in M) >= Fraction(E)):
+    if need_exact and not (sum(Fraction(m) for m in M) >= Fraction(E)):
         return False
     e = E
     for j in range(len(M) - 1, -1, -1):
@@ -185,6 +185,9 @@ def classify(f):
         return "eject_nan_empty_cut_bin"
     if cl == "ejecting no more than exists must not raise" and f.get("near_total") \
             and _rounding_case(f["input"]["M"], f["input"]["E"]):
+        return "eject_exact_total_rounding"
+    if cl == "row: a feasible retention must not raise" and f.get("near_total") \
+            and _rounding_case(f["M_after_kicks"], f["budget"], need_exact=False):
         return "eject_exact_total_rounding"
     if cl == "row: no count or mass becomes NaN" and f.get("cut_bin_empty"):
         return "eject_nan_empty_cut_bin"
@@ -259,7 +262,9 @@ def oracle_post(chk, case, out, rec):
     if kicked > budget * (1 - 1e-9) - 1e-12 * tot:
         return  # knife edge
     if out[0] == "Err":
-        chk.fail("row: a feasible retention must not raise", case, out)
+        Mk, Nk = rec.get("after", (M, N))
+        chk.fail("row: a feasible retention must not raise", case, out, budget=budget - kicked, M_after_kicks=Mk,
+                 near_total=bool(budget - kicked > (1 - 1e-9) * math.fsum(Mk)))
         return
     chk.count("budget met")
     M2, N2 = out[1], out[2]
